@@ -400,6 +400,160 @@ pub fn docs(tier: Tier) -> Vec<Doc> {
     v
 }
 
+/// how a collection document is fed to the reader
+#[derive(Clone, Debug)]
+pub enum Feed {
+    /// `PgnRawParser::new` (the default buffer size), reads filled completely
+    Default,
+    /// `with_chunk_size(n)`, reads filled completely
+    Chunk(usize),
+    /// `with_chunk_size(n)`, the i-th read returns at most pattern[i % len] bytes (0 = as many as asked)
+    Pattern(usize, Vec<usize>),
+}
+
+struct PatternReader<'a> {
+    data: &'a [u8],
+    pos: usize,
+    call: usize,
+    pattern: &'a [usize],
+}
+
+impl<'a> Read for PatternReader<'a> {
+    fn read(&mut self, buf: &mut [u8]) -> std::io::Result<usize> {
+        let mut n = buf.len().min(self.data.len() - self.pos);
+        if !self.pattern.is_empty() {
+            let k = self.pattern[self.call % self.pattern.len()];
+            if k != 0 {
+                n = n.min(k);
+            }
+        }
+        buf[..n].copy_from_slice(&self.data[self.pos..self.pos + n]);
+        self.pos += n;
+        self.call += 1;
+        Ok(n)
+    }
+}
+
+fn run_feed(doc: &[u8], feed: &Feed) -> Result<Vec<Result<Yielded, String>>, String> {
+    guarded(|| {
+        let none: [usize; 0] = [];
+        let (mut parser, _) = match feed {
+            Feed::Default => (PgnRawParser::new(PatternReader { data: doc, pos: 0, call: 0, pattern: &none }), 0),
+            Feed::Chunk(n) => (PgnRawParser::with_chunk_size(PatternReader { data: doc, pos: 0, call: 0, pattern: &none }, *n), 0),
+            Feed::Pattern(n, pat) => (PgnRawParser::with_chunk_size(PatternReader { data: doc, pos: 0, call: 0, pattern: pat }, *n), 0),
+        };
+        let mut out = Vec::new();
+        let horizon = doc.len() + 2;
+        loop {
+            match parser.next() {
+                None => break,
+                Some(Ok(raw)) => {
+                    let mut tags: Vec<(String, String)> = raw.tag_pairs.into_iter().collect();
+                    tags.sort();
+                    out.push(Ok(Yielded { tags, moves: raw.moves.into_iter().map(|m| (m.mv, m.annotation)).collect() }));
+                }
+                Some(Err(e)) => out.push(Err(format!("{:?}", e))),
+            }
+            if out.len() > horizon {
+                out.push(Err("HORIZON: iterator does not terminate".to_string()));
+                break;
+            }
+        }
+        out
+    })
+}
+
+/// the pool plus one long game (castling by both sides, promotions, 200 plies) for collections
+fn collection_pool() -> Vec<Game> {
+    let mut v = pool();
+    let mut p = Pos::startpos();
+    let mut sans = Vec::new();
+    let opening = ["e2e4", "e7e5", "g1f3", "b8c6", "f1c4", "f8c5", "e1g1", "g8f6", "d2d3", "d7d6", "c1g5", "c8g4", "b1c3", "d8d7", "d1d2", "e8c8", "h2h4", "h7h5", "a2a4", "a7a5"];
+    let cycle = ["f1e1", "d8e8", "e1f1", "e8d8", "a1b1", "h8g8", "b1a1", "g8h8"];
+    let mut i = 0;
+    while sans.len() < 200 {
+        let u = if sans.len() < opening.len() { opening[sans.len()] } else { cycle[{ i += 1; i - 1 } % cycle.len()] };
+        let m = p.find_legal_uci(u).unwrap_or_else(|| panic!("collection game move {} illegal in {}", u, p.to_fen()));
+        sans.push(san(&p, &m));
+        p = p.make(&m);
+    }
+    v.push(Game { tags: vec![("Event".to_string(), "A long game".to_string()), ("Result".to_string(), "1/2-1/2".to_string()), ("Termination".to_string(), "Normal".to_string())], sans, result: "1/2-1/2", final_fen: p.to_fen() });
+    v
+}
+
+fn collection_indices(n_games: usize, pool_len: usize) -> Vec<usize> {
+    (0..n_games).map(|i| (i * 5 + i / 7) % pool_len).collect()
+}
+
+/// collections of many games ("any number of games"), fed through every entry point
+fn check_collections(rep: &Reporter, tier: Tier, runs: &AtomicU64) -> Value {
+    let cpool = collection_pool();
+    let sizes: Vec<usize> = if tier == Tier::Quick { vec![1, 2, 3, 4, 5, 8, 13, 40, 150, 600] } else { vec![1, 2, 3, 4, 5, 8, 13, 40, 150, 600, 3000, 12_000] };
+    let mut jobs: Vec<(usize, bool, &'static str)> = Vec::new();
+    for &n in &sizes {
+        for comments in [false, true] {
+            for ending in ["\n", "", "\n\n"] {
+                if n > 600 && (ending != "\n" || comments) {
+                    continue;
+                }
+                jobs.push((n, comments, ending));
+            }
+        }
+    }
+    let bytes_total = AtomicU64::new(0);
+    par_map_fine(&jobs, |&(n, comments, ending)| {
+        let idx = collection_indices(n, cpool.len());
+        let games: Vec<&Game> = idx.iter().map(|&i| &cpool[i]).collect();
+        let (text, annots) = render(&games, comments, ending);
+        let exp = expected(&games, &annots);
+        let bytes = text.as_bytes();
+        bytes_total.fetch_add(bytes.len() as u64, Ordering::Relaxed);
+        let len = bytes.len();
+        let mut feeds: Vec<Feed> = vec![Feed::Default];
+        for c in [1usize, 2, 3, 5, 7, 64, 1000, 4096, 8191, 8192, 8193, 65_536, len.saturating_sub(1).max(1), len, len + 1] {
+            if c == 1 && len > 2_000_000 {
+                continue;
+            }
+            feeds.push(Feed::Chunk(c));
+        }
+        for c in [2usize, 3, 8, 8192] {
+            for pat in [vec![1], vec![2], vec![3], vec![7], vec![0, 1], vec![0, 0, 2], vec![1, 0, 3, 0, 0]] {
+                feeds.push(Feed::Pattern(c, pat));
+            }
+        }
+        let mut first: Option<Vec<Result<Yielded, String>>> = None;
+        let mut reported: std::collections::HashSet<String> = std::collections::HashSet::new();
+        for feed in &feeds {
+            runs.fetch_add(1, Ordering::Relaxed);
+            let case = |extra: Value| json!({"kind": "pgn_collection", "games_in_document": n, "comments": comments, "ending": ending, "feed": format!("{:?}", feed), "document_bytes": len, "detail": extra});
+            match run_feed(bytes, feed) {
+                Err(m) => rep.report(format!("panic:{}", short(&m)), case(json!({"panic": m}))),
+                Ok(got) => {
+                    if let Some((sig, detail)) = compare(&exp, &got, &games, comments) {
+                        if reported.insert(sig.clone()) {
+                            rep.report(format!("collection:{}", sig), case(detail));
+                        }
+                    }
+                    match &first {
+                        None => {
+                            if n <= 40 {
+                                replay_san(rep, &text, &games, &got);
+                            }
+                            first = Some(got);
+                        }
+                        Some(f) => {
+                            if *f != got && reported.insert("chunking".to_string()) {
+                                rep.report("collection:result_depends_on_chunking".to_string(), case(json!({"games_yielded_first_run": f.len(), "games_yielded_this_run": got.len()})));
+                            }
+                        }
+                    }
+                }
+            }
+        }
+    });
+    json!({"collection_sizes_in_games": sizes, "documents": jobs.len(), "bytes_of_all_documents": bytes_total.load(Ordering::Relaxed), "feeds_per_document": "PgnRawParser::new (default buffer), 15 chunk sizes incl. 8191/8192/8193/65536/len-1/len/len+1, 4 chunk sizes x 7 periodic short-read patterns"})
+}
+
 pub fn run(tier: Tier) -> i32 {
     let started = Instant::now();
     let rep = Reporter::new("C17");
@@ -430,9 +584,14 @@ pub fn run(tier: Tier) -> i32 {
             check_doc(&rep, &pool, d, 2, if tier == Tier::Quick { 3 } else { 5 }, &runs, &outcomes);
         }
     });
+    let t_coll = Instant::now();
+    let coll = check_collections(&rep, tier, &runs);
+    let coll_secs = t_coll.elapsed().as_secs_f64();
     let mut cov = Coverage::new();
     cov.states = ds.len() as u64;
     cov.transitions = runs.load(Ordering::Relaxed);
+    cov.set("collections", coll);
+    cov.set("collections_secs", json!(coll_secs));
     cov.traces_validated = cov.transitions;
     cov.set("documents", json!(ds.len()));
     cov.set("reader_runs", json!(runs.load(Ordering::Relaxed)));
@@ -449,12 +608,46 @@ pub fn replay(case: &Value) -> i32 {
     let started = Instant::now();
     let rep = Reporter::new("C17");
     let pool = pool();
-    let idx: Vec<usize> = case["games"].as_array().map(|a| a.iter().map(|v| v.as_u64().unwrap_or(0) as usize).collect()).unwrap_or_default();
     let ending: &'static str = match case["ending"].as_str().unwrap_or("\n") {
         "" => "",
         "\n\n" => "\n\n",
         _ => "\n",
     };
+    if case["kind"] == "pgn_collection" {
+        let cpool = collection_pool();
+        let n = case["games_in_document"].as_u64().unwrap_or(1) as usize;
+        let comments = case["comments"].as_bool().unwrap_or(false);
+        let idx = collection_indices(n, cpool.len());
+        let games: Vec<&Game> = idx.iter().map(|&i| &cpool[i]).collect();
+        let (text, annots) = render(&games, comments, ending);
+        let exp = expected(&games, &annots);
+        let f = case["feed"].as_str().unwrap_or("Default");
+        let nums: Vec<usize> = f.split(|c: char| !c.is_ascii_digit()).filter(|t| !t.is_empty()).filter_map(|t| t.parse().ok()).collect();
+        let feed = if f.starts_with("Chunk") { Feed::Chunk(nums[0]) } else if f.starts_with("Pattern") { Feed::Pattern(nums[0], nums[1..].to_vec()) } else { Feed::Default };
+        match (run_feed(text.as_bytes(), &feed), run_feed(text.as_bytes(), &feed)) {
+            (Ok(g1), Ok(g2)) => {
+                if g1 != g2 {
+                    eprintln!("MACHINERY: two replays of the same feed differ");
+                    return 2;
+                }
+                println!("{} games in the document, {} items yielded through {:?}", n, g1.len(), feed);
+                if let Some((sig, detail)) = compare(&exp, &g1, &games, comments) {
+                    rep.report(format!("collection:{}", sig), json!({"kind": "pgn_collection", "games_in_document": n, "comments": comments, "ending": ending, "feed": f, "detail": detail}));
+                }
+                if let Ok(base) = run_feed(text.as_bytes(), &Feed::Default) {
+                    if base != g1 {
+                        rep.report("collection:result_depends_on_chunking".to_string(), json!({"kind": "pgn_collection", "games_in_document": n, "comments": comments, "ending": ending, "feed": f}));
+                    }
+                }
+            }
+            (Err(m), _) | (_, Err(m)) => rep.report(format!("panic:{}", short(&m)), json!({"kind": "pgn_collection", "games_in_document": n, "panic": m})),
+        }
+        println!("replay: {} violating case(s) reproduced", rep.violation_count());
+        let mut cov = Coverage::new();
+        cov.states = 1;
+        return finish(&rep, Tier::Quick, cov, started);
+    }
+    let idx: Vec<usize> = case["games"].as_array().map(|a| a.iter().map(|v| v.as_u64().unwrap_or(0) as usize).collect()).unwrap_or_default();
     let d = Doc { idx, comments: case["comments"].as_bool().unwrap_or(false), ending };
     let games: Vec<&Game> = d.idx.iter().map(|&i| &pool[i]).collect();
     let (text, annots) = render(&games, d.comments, d.ending);
